@@ -5,3 +5,151 @@ from .values import *
 from .program import type_last, generic_args, strip_generics
 from .models import MODELS, PRIORITY, model, as_slice, items_of, pystr, lit, bytes_eq
 from .models_iter import Iter, ListIter, iter_of, drain_iter
+
+
+# ============================================================================ glob crate (0.3.1) model
+# A Python transcription of glob::Pattern::{new, matches} (default MatchOptions).  It is a stub of a
+# dependency, not of pkgsrc-rs code; every path witness is re-executed natively against the real crate.
+def _glob_err(pos, msg):
+    return err(Agg('glob::PatternError', 0, [USZ(pos), Slice(lit(msg), 0, len(msg), 'str')]))
+
+
+def _ceq(E, c, ch):
+    return E.branch(i_eq(c, I('char', ord(ch))))
+
+
+@model('glob::Pattern::new')
+def _glob_new(E, ci, s):
+    from .models_core import char_positions
+    sl = as_slice(s)
+    chars = [c for _, c, _ in char_positions(E, sl)]
+    n = len(chars)
+    tokens = []
+    i = 0
+    while i < n:
+        c = chars[i]
+        if _ceq(E, c, '?'):
+            tokens.append(('any',))
+            i += 1
+        elif _ceq(E, c, '*'):
+            old = i
+            while i < n and _ceq(E, chars[i], '*'):
+                i += 1
+            count = i - old
+            if count > 2:
+                return _glob_err(old + 2, 'wildcards are either regular `*` or recursive `**`')
+            if count == 2:
+                if i == 2 or _ceq(E, chars[i - count - 1], '/'):
+                    if i < n and _ceq(E, chars[i], '/'):
+                        i += 1
+                    elif i == n:
+                        pass
+                    else:
+                        return _glob_err(i, 'recursive wildcards must form a single path component')
+                else:
+                    return _glob_err(old - 1, 'recursive wildcards must form a single path component')
+                if not (len(tokens) > 1 and tokens[-1] == ('recseq',)):
+                    tokens.append(('recseq',))
+            else:
+                tokens.append(('seq',))
+        elif _ceq(E, c, '['):
+            done = False
+            if i + 4 <= n and _ceq(E, chars[i + 1], '!'):
+                j = None
+                for k, x in enumerate(chars[i + 3:]):
+                    if _ceq(E, x, ']'):
+                        j = k
+                        break
+                if j is not None:
+                    tokens.append(('except', _glob_specs(E, chars[i + 2:i + 3 + j])))
+                    i += j + 4
+                    done = True
+            elif i + 3 <= n and not _ceq(E, chars[i + 1], '!'):
+                j = None
+                for k, x in enumerate(chars[i + 2:]):
+                    if _ceq(E, x, ']'):
+                        j = k
+                        break
+                if j is not None:
+                    tokens.append(('within', _glob_specs(E, chars[i + 1:i + 2 + j])))
+                    i += j + 3
+                    done = True
+            if not done:
+                return _glob_err(i, 'invalid range pattern')
+        else:
+            tokens.append(('char', c))
+            i += 1
+    return ok(Obj('glob::Pattern', tokens=tokens, original=VecV(list(sl.items()), 'String')))
+
+
+def _glob_specs(E, s):
+    cs = []
+    i = 0
+    while i < len(s):
+        if i + 3 <= len(s) and _ceq(E, s[i + 1], '-'):
+            cs.append(('range', s[i], s[i + 2]))
+            i += 3
+        else:
+            cs.append(('single', s[i]))
+            i += 1
+    return cs
+
+
+def _in_specs(E, specs, c):
+    for sp in specs:
+        if sp[0] == 'single':
+            if E.branch(i_eq(c, sp[1])):
+                return True
+        else:
+            if E.branch(b_and(i_cmp('Ge', c, sp[1]), i_cmp('Le', c, sp[2]))):
+                return True
+    return False
+
+
+def _glob_matches_from(E, tokens, follows_sep, chars, pos, i):
+    """-> 'match' | 'sub' | 'entire'"""
+    for ti in range(i, len(tokens)):
+        tok = tokens[ti]
+        if tok[0] in ('seq', 'recseq'):
+            r = _glob_matches_from(E, tokens, follows_sep, chars, pos, ti + 1)
+            if r != 'sub':
+                return r
+            while pos < len(chars):
+                c = chars[pos]
+                pos += 1
+                follows_sep = _ceq(E, c, '/')
+                if tok[0] == 'recseq' and not follows_sep:
+                    continue
+                r = _glob_matches_from(E, tokens, follows_sep, chars, pos, ti + 1)
+                if r != 'sub':
+                    return r
+        else:
+            if pos >= len(chars):
+                return 'entire'
+            c = chars[pos]
+            pos += 1
+            if tok[0] == 'any':
+                okk = True
+            elif tok[0] == 'within':
+                okk = _in_specs(E, tok[1], c)
+            elif tok[0] == 'except':
+                okk = not _in_specs(E, tok[1], c)
+            else:
+                okk = E.branch(i_eq(c, tok[1]))
+            if not okk:
+                return 'sub'
+            follows_sep = False if c.conc() and c.v != 47 else _ceq(E, c, '/')
+    return 'match' if pos >= len(chars) else 'sub'
+
+
+@model('glob::Pattern::matches')
+def _glob_matches(E, ci, p, s):
+    from .models_core import char_positions
+    p = deref(p)
+    chars = [c for _, c, _ in char_positions(E, as_slice(s))]
+    return _glob_matches_from(E, p.tokens, True, chars, 0, 0) == 'match'
+
+
+@model('glob::Pattern::as_str')
+def _glob_as_str(E, ci, p):
+    return deref(p).original.view()
